@@ -113,6 +113,7 @@ func (fr *Frame) nativeCall(b *ssa.BasicBlock, st *State, name string, callee *s
 		r := fc.freshConst("bytes_eq", "Bool")
 		fc.addFact("true", sEq(r, sAnd(sEq(sApp("sl_len", xs), sApp("sl_len", ys)),
 			fmt.Sprintf("(forall ((i Int)) (=> (and (<= 0 i) (< i (sl_len %s))) (= (select (select %s (sl_arr %s)) (+ (sl_off %s) i)) (select (select %s (sl_arr %s)) (+ (sl_off %s) i)))))", xs, hp, xs, xs, hp, ys, ys))))
+		fc.addFact("true", sImp(r, sEq(fr.bseqOf(st, x), fr.bseqOf(st, y))))
 		return Val{S: r, Typ: resT}, true
 	case "(encoding/binary.bigEndian).PutUint64", "(encoding/binary.littleEndian).PutUint64":
 		fr.trust(name + ": writes the 8 bytes of the value; panics if len < 8")
